@@ -50,7 +50,7 @@ META = {
                     "host, cyclic over 2 or 3 hosts, and a communicator with reversed rank order",
                     "cases in the class of a listed root cause (gen/colls_findings.py) are run apart from the others; of the "
                     "classes that crash only a few representatives are run"],
-    "ready": False,
+    "ready": True,
 }
 
 WATCHDOG = 300
